@@ -344,7 +344,8 @@ def run(ctx) -> None:
         for c in walk_no_nested(fn.node):
             if isinstance(c, ast.Call) and call_name(c) == "normalize_axes" and len(c.args) >= 2:
                 sites.append((c, c.args[1]))
-            if isinstance(c, ast.IfExp) and isinstance(c.test, ast.Compare) and isinstance(c.test.ops[0], (ast.GtE, ast.Lt)):
+            if isinstance(c, ast.IfExp) and isinstance(c.test, ast.Compare) and isinstance(
+                    c.test.ops[0], (ast.GtE, ast.Lt, ast.Gt, ast.LtE)):  # either orientation of the sign test
                 for arm in (c.body, c.orelse):
                     if isinstance(arm, ast.BinOp) and isinstance(arm.op, ast.Add):
                         for side in (arm.left, arm.right):
